@@ -545,6 +545,10 @@ class DataflowTransactionContext(ABC):  # pylint: disable=too-few-public-methods
                 true_values, false_values = self._get_asserted(key, exit_ins_arg)
 
                 if len(block.next) == 1:
+                    if len(block.exit_instr.next) > 1:
+                        # the branch target is the next instruction: both outcomes continue at the same
+                        # block, the edge carries no constraint.
+                        break
                     # happens when bz/bnz is the last instruction in the contract and there is no default branch
                     default_branch = None
                     jump_branch = block.next[0]
